@@ -40,6 +40,9 @@ Lemma evaluate_unfinished w p wg bg c0 : analyze p = Some (wg, bg) -> game_over 
   end.
 Proof. intros A G. unfold evaluate. rewrite A, G. reflexivity. Qed.
 
+Lemma evaluate_no_groups w p : analyze p = None -> evaluate w p = Panic.
+Proof. intros A. unfold evaluate. rewrite A. reflexivity. Qed.
+
 Lemma base_score_bound w p : hi0 64 (White p) -> hi0 64 (Black p) ->
   Z.abs (base_score w p) <= Z.abs (Z.quot (wt w TopFlat) 2 + wt w Tempo) + 64 * (aw w TopFlat + aw w FStanding + aw w FCapstone + aw w Center).
 Proof.
@@ -87,7 +90,7 @@ Proof.
   apply lt_hi0 in HW, HB, HS, HC.
   destruct (consts_hi0 (size p) Hs) as [Hm _].
   destruct (analyze p) as [[wg bg]|] eqn:A.
-  2:{ unfold evaluate in E. rewrite A in E. discriminate. }
+  2:{ rewrite (evaluate_no_groups w p A) in E. discriminate. }
   rewrite (evaluate_unfinished w p wg bg c0 A G) in E.
   destruct (analyze_len p wg bg A) as [Lw Lb].
   destruct (score_groups _ wg w _) as [gw| |] eqn:Gw; try discriminate.
@@ -105,6 +108,24 @@ Proof.
   generalize dependent (lib_score w p (loop_score w p (base_score w p) + gw - gb)). intros lib Blib.
   generalize dependent (loop_score w p (base_score w p)). intros lp Bl.
   generalize dependent (base_score w p). intros s0 B0.
-  pose proof (aw_nonneg w Liberties).
-  intros. destruct (to_move_white p); lia.
+  intros.
+  assert (0 <= Z.abs (wt w TopFlat ÷ 2 + wt w Tempo)) by lia.
+  set (t0 := Z.abs (wt w TopFlat ÷ 2 + wt w Tempo)) in *. clearbody t0.
+  pose proof (aw_nonneg w TopFlat). set (a1 := aw w TopFlat) in *. clearbody a1.
+  pose proof (aw_nonneg w FStanding). set (a2 := aw w FStanding) in *. clearbody a2.
+  pose proof (aw_nonneg w FCapstone). set (a3 := aw w FCapstone) in *. clearbody a3.
+  pose proof (aw_nonneg w Center). set (a4 := aw w Center) in *. clearbody a4.
+  pose proof (aw_nonneg w Liberties). set (a5 := aw w Liberties) in *. clearbody a5.
+  pose proof (aw_nonneg w EmptyControl). set (a6 := aw w EmptyControl) in *. clearbody a6.
+  pose proof (aw_nonneg w FlatControl). set (a7 := aw w FlatControl) in *. clearbody a7.
+  pose proof (aw_nonneg w CenterControl). set (a8 := aw w CenterControl) in *. clearbody a8.
+  assert (A1 : - bound_groups w <= gw <= bound_groups w) by lia.
+  assert (A2 : - bound_groups w <= gb <= bound_groups w) by lia.
+  assert (A3 : - bound_threats w <= thr <= bound_threats w) by lia.
+  assert (A4 : - (64 * (a6 + a7 + a8)) <= ctl <= 64 * (a6 + a7 + a8)) by lia.
+  assert (A5 : - (t0 + 64 * (a1 + a2 + a3 + a4)) <= s0 <= t0 + 64 * (a1 + a2 + a3 + a4)) by lia.
+  assert (A6 : - (64 * bound_square w) <= lp - s0 <= 64 * bound_square w) by lia.
+  assert (A7 : - (64 * a5) <= lib - (lp + gw - gb) <= 64 * a5) by lia.
+  clear Gw Gb Bt Bc B0 Bl Blib.
+  destruct (to_move_white p); lia.
 Qed.
